@@ -87,7 +87,7 @@ Definition run_call (fixed : bool) (c : call) : option result :=
   | CReshape s sz => oshape (if fixed then aten_view s sz else aten_reshape s sz)
   | CRepeat s r => oshape (aten_repeat s r)
   | CTile s d => oshape (aten_tile s d)
-  | CCat ss d => oshape (aten_cat ss d)
+  | CCat ss d => oshape (if fixed then aten_cat_fixed ss d else aten_cat ss d)
   | CStack ss d => oshape (aten_stack ss d)
   | CReduce RSum s ds k => oshape (aten_sum_dim s ds k)
   | CReduce RAmax s ds k => oshape (aten_amax s ds k)
@@ -141,7 +141,7 @@ Definition skel_call (fixed : bool) (c : call) : skel :=
   | CReshape _ sz => if fixed then skel_view sz else skel_reshape sz
   | CRepeat _ r => skel_repeat r
   | CTile s d => skel_tile s d
-  | CCat ss d => skel_cat ss d
+  | CCat ss d => if fixed then skel_cat_fixed ss d else skel_cat ss d
   | CStack ss d => skel_stack ss d
   | CReduce RSum s ds k => skel_sum_dim s ds k
   | CReduce RAmax _ _ k => skel_amax fixed k
